@@ -19,6 +19,8 @@ type Profile struct {
 	PIgnoreCase        int         // percent of literals/classes with i
 	PInverted          int         // percent of classes with ^
 	PUClass            int         // percent of classes carrying a Unicode class
+	LabelPool          int         // number of distinct label names used (0 = all 8): few names make nested scopes re-use them
+	PWideRange         int         // percent of class members that are wide ranges (crossing U+0080)
 	UClasses           []string
 	PLabel             int // percent of sequence items that get a label
 	PDisplay           int // percent of rules with a display name
@@ -54,6 +56,7 @@ type gen struct {
 	nullable map[string]bool // known nullability of already generated (later) rules
 	cur      int             // index of the rule being generated
 	nextID   int
+	handled  []string // labels handled by the lexically enclosing recovery operators
 }
 
 func pct(r *rand.Rand, p int) bool { return p > 0 && r.Intn(100) < p }
@@ -142,7 +145,11 @@ func (s *scope) has(l string) bool {
 var labelPool = []string{"a", "b", "d", "e", "x", "y", "v", "w"}
 
 func (gn *gen) freshLabel(sc *scope) string {
-	for _, l := range gn.r.Perm(len(labelPool)) {
+	n := len(labelPool)
+	if gn.p.LabelPool > 0 && gn.p.LabelPool < n {
+		n = gn.p.LabelPool
+	}
+	for _, l := range gn.r.Perm(n) {
 		if !sc.has(labelPool[l]) {
 			return labelPool[l]
 		}
@@ -213,12 +220,13 @@ func (gn *gen) expr(depth int, must, atStart bool, sc *scope) *Expr {
 			}
 			start := atStart
 			for i := 0; i < n; i++ {
-				it := gn.expr(depth-1, i == mustIdx, start, sc)
-				if pct(r, p.PLabel) {
-					if l := gn.freshLabel(sc); l != "" {
-						sc.labels = append(sc.labels, l)
-						it = Lab(l, it)
-					}
+				var it *Expr
+				if l := gn.freshLabel(sc); l != "" && pct(r, p.PLabel) {
+					// the operand of a label is a scope of its own: the same names may be used again inside
+					sc.labels = append(sc.labels, l)
+					it = Lab(l, gn.expr(depth-1, i == mustIdx, start, &scope{}))
+				} else {
+					it = gn.expr(depth-1, i == mustIdx, start, sc)
 				}
 				items = append(items, it)
 				if !gn.isNullable(it) {
@@ -282,6 +290,20 @@ func (gn *gen) expr(depth int, must, atStart bool, sc *scope) *Expr {
 			if must || len(p.ThrowLabels) == 0 {
 				continue
 			}
+			// mostly throw a label some enclosing recovery operator handles
+			if len(gn.handled) > 0 && r.Intn(4) != 0 {
+				var cands []string
+				for _, l := range gn.handled {
+					for _, a := range p.ThrowLabels {
+						if a == l {
+							cands = append(cands, l)
+						}
+					}
+				}
+				if len(cands) > 0 {
+					return Thr(cands[r.Intn(len(cands))])
+				}
+			}
 			return Thr(p.ThrowLabels[r.Intn(len(p.ThrowLabels))])
 		case Recovery:
 			if len(p.ThrowLabels) == 0 {
@@ -289,15 +311,26 @@ func (gn *gen) expr(depth int, must, atStart bool, sc *scope) *Expr {
 			}
 			// handled labels: a random non-empty subset; the recovery expression may only throw
 			// strictly greater labels (no unbounded handler recursion)
-			nl := 1 + r.Intn(2)
-			idx := r.Perm(len(p.ThrowLabels))[:min(nl, len(p.ThrowLabels))]
+			nl := 1
+			if r.Intn(10) < 3 {
+				nl = 2
+			}
+			// prefer the smaller labels so that recovery expressions can still throw greater ones
+			perm := r.Perm(len(p.ThrowLabels))
+			if r.Intn(2) == 0 {
+				sort.Ints(perm)
+			}
+			idx := perm[:min(nl, len(p.ThrowLabels))]
 			sort.Ints(idx)
 			var ls []string
 			for _, i := range idx {
 				ls = append(ls, p.ThrowLabels[i])
 			}
 			nsc := &scope{}
+			nh := len(gn.handled)
+			gn.handled = append(gn.handled, ls...)
 			guarded := gn.expr(depth-1, must, atStart, nsc)
+			gn.handled = gn.handled[:nh]
 			saved := p.ThrowLabels
 			gn.p = &Profile{}
 			*gn.p = *p
@@ -372,6 +405,13 @@ func (gn *gen) terminalKind(k Kind, must bool) *Expr {
 		c := &ClassSpec{}
 		n := 1 + r.Intn(3)
 		for i := 0; i < n; i++ {
+			if p.PWideRange > 0 && pct(r, p.PWideRange) {
+				// a range from a low rune far up (crossing U+0080 and the case blocks)
+				lo := []rune{' ', '0', 'A', 'Z', 'a', 0x7f, 0x80}[r.Intn(7)]
+				hi := []rune{0x80, 0xff, 0x17f, 0x2fff, 0xffff, 0x10ffff}[r.Intn(6)]
+				c.Ranges = append(c.Ranges, [2]rune{lo, hi})
+				continue
+			}
 			if r.Intn(4) == 0 {
 				lo, hi := gn.rune1(), gn.rune1()
 				if lo > hi {
